@@ -52,6 +52,7 @@ package client
 //@   property C02
 //@   safety C02
 //@   requires line != nil
+//@   ensures result && (line.Cmd == "CTCP" || line.Cmd == "CTCPREPLY") ==> len(line.Args) > 1
 //@ end
 
 //@ func (*Line).Target
